@@ -27,7 +27,7 @@ META = {
     "design_ref": "DESIGN.md section 6 (C19)",
 }
 GEN = ["VersionsGen.v"]
-TARGETS = ["Gen/VersionsGen", "Spec/C19", "Model/Sessions", "Proofs/Sessions", "Props/C19", "Drv/C19Spec", "Drv/C19"]
+TARGETS = ["Gen/VersionsGen", "Spec/C19", "Model/Sessions", "Proofs/Sessions", "Proofs/SessionsSpec", "Props/C19", "Drv/C19Spec", "Drv/C19"]
 
 TRUSTED = [
     "Coq 8.16.1 kernel (coqc); coqchk re-check in the thorough tier",
@@ -334,8 +334,8 @@ def alphabet():
         ("delete", 0), ("delete", 1), ("delete", 2),
         ("cleanup", DT), ("cleanup", 2 * DT),
         ("clear",),
-        ("init", True, c(2), "2025-03-26", 0),
-        ("init", False, ABSENT, "1999-01-01", None),
+        ("init", True, c(2), "1999-01-01", 0),          # unsupported: the ANSWERED version differs from the requested one
+        ("init", False, ABSENT, "2025-03-26", None),
         ("request", "ping", 1),
         ("request", "response", 0),
     ]
@@ -444,7 +444,7 @@ def check_batch(ctx, batch, model, spec):
                                f"step {si} ({op_json(op)} at t={t}) is not what the simple map does: observed {steps[si][:300]}")
         if model and mi != -1:
             t, op = hist[mi]
-            mt = model.run([call(1, "(" + " ".join(steps[:mi + 1]) + ")")])[0]
+            mt = model.run([call(1, "(" + " ".join(steps[:mi + 1]) + ")")])[0] if len(ctx.corr_mismatch) < 3 else ["<not fetched>"]
             ctx.mismatch({"history": case["history"][:mi + 1]}, steps[mi][:400], json.dumps(mt[-1])[:400],
                          f"step {mi} ({op[0]}): model != implementation")
 
@@ -515,8 +515,8 @@ def run(ctx):
     ctx.exhaustive = True
     ctx.rule = ("exhaustive: ALL sequences of length <= depth (quick 4, thorough/escalated 5) over 14 state-changing operations, plus all "
                 "sequences of length depth+1 over the 7 core ones {create, touch 0, delete 0, cleanup x2, initialize, ping}, on a "
-                "3-session universe {create, touch 0/1/2, delete 0/1/2, cleanup(10), cleanup(20), clear, initialize request with "
-                "session 0, id-less initialize with an unsupported version, ping with session 1, response-shaped message with "
+                "3-session universe {create, touch 0/1/2, delete 0/1/2, cleanup(10), cleanup(20), clear, initialize request (unsupported version) with "
+                "session 0, id-less initialize, ping with session 1, response-shaped message with "
                 "session 0}, one operation every 10 time units so that both cleanup limits meet now - last = max_age exactly; after "
                 "EVERY step the sessions dict is observed, and every sequence ends with the read-only operations {list + add/remove/"
                 "clear on the returned dict, count, get 0/1/2/unknown} (all prefixes are themselves enumerated). seeded: histories "
